@@ -8,6 +8,7 @@ CONSTANTS
   MaxDrain = 2
   Q = 2
   AllowSignal = TRUE
+  ReporterFragile = FALSE
 INVARIANTS LockOwnerConsistent NoPanic CleanExit
 PROPERTIES Stops NeverKeepsRunningDegraded
 CHECK_DEADLOCK FALSE
